@@ -310,6 +310,14 @@ func genImpHistory(g *Gen, long bool, idx int) {
 		t.op("impstep-at-boundary", "i2 impsteps %s 1", w)
 		t.op("i2-use-importing", "i2 use %s", w)
 		t.op("i2-wallets", "i2 wallets")
+		if tip := len(l.chain) - 1; tip > 1000 && tip-999 <= 60 && r.Intn(3) > 0 {
+			// a reorganisation whose lowest replaced block is exactly the block at the cursor (1000):
+			// the cursor has to go back to 999 (notify checks it against the fork point)
+			t.nodeEvent(func() { l.reorgTo(tip-999, 1+r.Intn(2)) })
+			t.drain2()
+			t.op("i2-wallets", "i2 wallets")
+			g.Stats["reorg-at-cursor"]++
+		}
 	}
 	t.op("i2-tasks", "i2 tasks")
 	t.op("i2-wallets", "i2 wallets")
